@@ -8,7 +8,6 @@ class Prop:
     engine = "VT (virtual-time discrete-event simulation on the repo's TestScheduler / VirtualTimeScheduler / HistoricalScheduler)"
     quick_runs = 200000
     thorough_runs = 3000000
-    quick_budget = 50.0
     thorough_budget = 900.0
     rule = ("seeded chains of 1-3 element-wise operators (catalogue rows %s) over one generated cold/hot/sync timeline "
             "(0-7 elements incl. falsy values, bursts, completion/error/no terminal) on three clock kinds; each run is compared, "
